@@ -3,7 +3,8 @@
    flags, and every sequence of per-candidate outcomes.                       *)
 EXTENDS Naturals, Sequences, FiniteSets, TLC, Json
 
-CONSTANTS DomainLists, NdotsSet, NoSearchSet, ViaFileSet, AliasSet, Names, Apis, Outcomes, MaxOut
+CONSTANTS DomainLists, NdotsSet, NoSearchSet, ViaFileSet, AliasSet, Names, Apis, Outcomes, MaxOut,
+          EnvSet     \* environment: records [ld |-> LOCALDOMAIN value or "", ro |-> RES_OPTIONS value or ""]
 VARIABLES cfg, h, nout
 gvars == <<cfg, h, nout>>
 
@@ -14,6 +15,7 @@ Req(api, name) ==
     [] api = "gai0" -> [op |-> "gai", t |-> 1, name |-> name, family |-> 0]
     [] api = "ghbn4" -> [op |-> "ghbn", t |-> 1, name |-> name, family |-> 4]
 Rep(k) == IF k = "nodata" THEN [op |-> "reply", tx |-> "name:n1", kind |-> "nodata"]
+          ELSE IF k = "cnameonly" THEN [op |-> "reply", tx |-> "name:n1", kind |-> "cname", n |-> 0]   \* NOERROR, an alias but no record of the type asked
           ELSE [op |-> "reply", tx |-> "name:n1", kind |-> k]
 OutcomeSteps(api, k) ==
   IF k = "timeout" THEN <<[op |-> "adv", to |-> "deadline"], [op |-> "process"]>>
@@ -21,10 +23,11 @@ OutcomeSteps(api, k) ==
 ApiOf(s) == IF s.op = "gai" THEN (IF s.family = 0 THEN "gai0" ELSE "gai4") ELSE IF s.op = "ghbn" THEN "ghbn4" ELSE s.op
 
 HasRoot(d) == \E i \in 1..Len(d) : d[i] = "."
-GInit == /\ \E d \in DomainLists, nd \in NdotsSet, ns \in NoSearchSet, vf \in ViaFileSet, al \in AliasSet :
+GInit == /\ \E d \in DomainLists, nd \in NdotsSet, ns \in NoSearchSet, vf \in ViaFileSet, al \in AliasSet, en \in EnvSet :
               /\ (vf = 1 => ~HasRoot(d))
               /\ cfg = [nsrv |-> 1, tries |-> 1, timeout |-> 1000, seed |-> 1, domains |-> d, ndots |-> nd, nosearch |-> ns, viafile |-> vf,
                         hostaliases |-> al, noaliases |-> 1 - al]
+                       @@ (IF en.ld # "" THEN [localdomain |-> en.ld] ELSE <<>>) @@ (IF en.ro # "" THEN [resoptions |-> en.ro] ELSE <<>>)
          /\ \E api \in Apis, name \in Names : h = <<Req(api, name)>>
          /\ nout = 0
 GNext == /\ nout < MaxOut
